@@ -13,6 +13,7 @@ Local Open Scope string_scope.
 Inductive callee :=
 | CUser (idx : nat) (impl : list val -> val)   (* a user callable: every call is an event and a use *)
 | CBool                                        (* the builtin bool, assigned by the library itself *)
+| CAdd                                         (* operator.add, the library's default reduction *)
 | CNoneFn.                                     (* None was passed *)
 
 Inductive expr :=
@@ -27,7 +28,12 @@ Inductive expr :=
 | EFnIsNone (f : string)                       (* f is None *)
 | EListComp (it : string)                      (* [x async for x in it] *)
 | ETupleOfList (e : expr)                      (* ( *e, ) *)
-| ESetComp (it : string).                      (* {x async for x in it} *)
+| ESetComp (it : string)                       (* {x async for x in it} *)
+| EIsSentinel (x : string)                     (* x is <the private "not given" marker of the function> *)
+| EIfExp (c a b : expr)                        (* a if c else b *)
+| ELt (a b : expr)                             (* a < b  (TypeError when unorderable) *)
+| EIsStrLike (e : expr)                        (* isinstance(e, (str, bytes, bytearray)): no such values in the domain *)
+| EOpaqueStr.                                  (* a string built for an error message only *)
 
 Inductive stmt :=
 | SSkip
@@ -40,6 +46,8 @@ Inductive stmt :=
 | SWith (it iterable : string) (body : stmt)   (* async with ScopedIter(iterable) as it: body *)
 | SFor (x it : string) (body orelse : stmt)    (* async for x in it: body  else: orelse *)
 | SAnextOr (x it : string) (handler : stmt)    (* try: x = await anext(it)  except StopAsyncIteration: handler *)
+| SAnextDefault (x it : string)                (* x = await anext(it, default=<marker>) *)
+| SRaise (e : exn)                             (* raise TypeError(...) / ValueError(...)  [from None] *)
 | SBreak
 | SReturn (e : option expr)
 | SUnsupported (what : string).                (* the translator met something outside the fragment *)
@@ -48,7 +56,7 @@ Record fdef := mkFn { f_name : string; f_params : list string; f_body : stmt }.
 
 (* ---------- environments ---------- *)
 Record env := mkEnv {
-  e_vars : list (string * val);
+  e_vars : list (string * option val);      (* None: bound to the function's "not given" marker *)
   e_fns : list (string * callee);
   e_its : list (string * nat)       (* iterable / iterator names -> source index *)
 }.
@@ -57,15 +65,21 @@ Fixpoint lookup {A} (x : string) (l : list (string * A)) : option A :=
   | [] => None
   | (y, a) :: r => if String.eqb x y then Some a else lookup x r
   end.
-Definition set_var (en : env) (x : string) (v : val) := mkEnv ((x, v) :: e_vars en) (e_fns en) (e_its en).
+Definition set_var (en : env) (x : string) (v : val) := mkEnv ((x, Some v) :: e_vars en) (e_fns en) (e_its en).
+Definition set_marker (en : env) (x : string) := mkEnv ((x, None) :: e_vars en) (e_fns en) (e_its en).
 Definition set_fn (en : env) (f : string) (c : callee) := mkEnv (e_vars en) ((f, c) :: e_fns en) (e_its en).
 Definition set_it (en : env) (x : string) (i : nat) := mkEnv (e_vars en) (e_fns en) ((x, i) :: e_its en).
 
-Inductive arg := AVal (v : val) | AFn (c : callee) | AIter (i : nat).
+Inductive arg := AVal (v : val) | AOpt (o : option val) | AFn (c : callee) | AIter (i : nat).
 Fixpoint bind_args (ps : list string) (args : list arg) (en : env) : env :=
   match ps, args with
   | p :: ps', a :: args' =>
-      bind_args ps' args' (match a with AVal v => set_var en p v | AFn c => set_fn en p c | AIter i => set_it en p i end)
+      bind_args ps' args' (match a with
+                          | AVal v | AOpt (Some v) => set_var en p v
+                          | AOpt None => set_marker en p
+                          | AFn c => set_fn en p c
+                          | AIter i => set_it en p i
+                          end)
   | _, _ => en
   end.
 Definition empty_env := mkEnv [] [] [].
@@ -77,13 +91,14 @@ Definition call_callee (c : callee) (args : list val) : M val :=
   match c with
   | CUser idx impl => call idx impl args
   | CBool => match args with [x] => ret (VBool (truthy x)) | _ => raise XTypeError end
+  | CAdd => match args with [x; y] => lift_val (py_add x y) | _ => raise XTypeError end
   | CNoneFn => raise XTypeError
   end.
 Definition set_add' := set_add.
 
 Fixpoint eval (en : env) (e : expr) : M val :=
   match e with
-  | EVar x => need (lookup x (e_vars en))
+  | EVar x => o <- need (lookup x (e_vars en)) ;; need o
   | EInt z => ret (VInt z)
   | ETrue => ret (VBool true)
   | EFalse => ret (VBool false)
@@ -111,6 +126,12 @@ Fixpoint eval (en : env) (e : expr) : M val :=
       i <- need (lookup it (e_its en)) ;;
       r <- loop_src i (fun acc x => if hashable x then ret (set_add acc x, true) else raise XTypeError) [] ;;
       ret (VList (fst r))
+  | EIsSentinel x => o <- need (lookup x (e_vars en)) ;;
+                     ret (VBool (match o with None => true | Some _ => false end))
+  | EIfExp c a b => v <- eval en c ;; if truthy v then eval en a else eval en b
+  | ELt a b => x <- eval en a ;; y <- eval en b ;; r <- lift_lt (py_lt x y) ;; ret (VBool r)
+  | EIsStrLike a => v <- eval en a ;; ret (VBool false)
+  | EOpaqueStr => ret VNone
   end.
 
 (* ---------- statements ---------- *)
@@ -152,6 +173,14 @@ Fixpoint exec (s : stmt) (en : env) (yield : val -> M unit) : M (env * sig) :=
       | Some v => ret (set_var en x v, Normal)
       | None => exec handler en yield
       end
+  | SAnextDefault x it =>
+      i <- need (lookup it (e_its en)) ;;
+      o <- pull i ;;
+      match o with
+      | Some v => ret (set_var en x v, Normal)
+      | None => ret (set_marker en x, Normal)
+      end
+  | SRaise e => raise e
   | SBreak => ret (en, Brk)
   | SReturn None => ret (en, Ret VNone)
   | SReturn (Some e) => v <- eval en e ;; ret (en, Ret v)
